@@ -432,17 +432,17 @@ def nontrivial(c, out):
     return False
 
 
-def in_domain(c):
-    return True
-
-
 def run(chk, args):
     chk.trusted += ["Python sets of Routes are modelled as bit sets; the aliases dictionary and index sets as lists "
                     "(the returned tables do not depend on their iteration order; checked by correspondence)",
                     "sorted() is stable (mirrored by a stable insertion sort)"]
-    chk.assumptions += ["route members are Routes (0..23), source members are Routes or None; every entry has at "
-                        "least one source direction; keys and masks are 32-bit unsigned integers with no key bit "
-                        "outside the mask (except in the malformed stream of default-route removal)",
+    chk.assumptions += ["route members are Routes (0..23), source members are Routes or None",
+                        "theorems about ordered covering / minimise_table(s) assume minimiser_domain (Spec/Table.v): "
+                        "32-bit keys and masks with no key bit outside the mask, every entry has at least one source "
+                        "direction ({None} counts), table in increasing order of generality or orthogonal; "
+                        "default-route removal is proved for any table whatever",
+                        "ordered_covering is started from an empty aliases dictionary (as ordered_covering.minimise "
+                        "does); the two-round use with aliases is tied by correspondence only",
                         "minimise_table(s) is used with its default methods"]
     chk.regenerate(UNITS)
     built = chk.prove()
@@ -459,8 +459,13 @@ def run(chk, args):
     if os.path.exists(corpus):
         cases = json.load(open(corpus)) + cases
     size = 200 if chk.tier == "quick" else 1000
-    chunks = [cases[i:i + size] for i in range(0, len(cases), size)]
-    outs = [o for part in chk.impl_parallel("impl_c04.py", chunks, timeout=3000) for o in part]
+    chunks = [cases[i:i + size] + [dict(op="events")] for i in range(0, len(cases), size)]
+    outs = []
+    for part in chk.impl_parallel("impl_c04.py", chunks, timeout=3000):
+        if part[-1][0] == "events":
+            for k, v in part[-1][1].items():
+                chk.count("path:" + k, v)
+        outs += part[:-1]                       # the last result belongs to the pseudo-case
     keep = [i for i, o in enumerate(outs) if o[0] != "skipped"]
     cases, outs = [cases[i] for i in keep], [outs[i] for i in keep]
     for c, o in zip(cases, outs):
